@@ -68,13 +68,25 @@ def gated_scenario(scn):
     return scn["backend"] == "main_thread_only" and scn["primary"]
 
 
-def execute(execnet, scn, choices=None, rng=None, preempt=0, preempt_prob=0.0, max_steps=20000, current_first=False):
+def execute(execnet, scn, choices=None, rng=None, preempt=0, preempt_prob=0.0, max_steps=20000, current_first=False, event_yield=False):
     gb = execnet.gateway_base
     out = Outcome()
     sched = Scheduler(rng=rng, choices=choices, timeouts=scn.get("timeouts", "when_stuck"), max_steps=max_steps,
                       preempt_lines=preempt, preempt_prob=preempt_prob, current_first=current_first,
                       src_prefix=os.path.dirname(os.path.abspath(gb.__file__)))
     em = make_execmodel(gb, sched, scn["backend"])
+    if event_yield:
+        # allocating an Event is a point where a thread can lose the processor too (an Event made lazily, on first use,
+        # by whoever comes first is made twice when two threads come at once)
+        plain_event = em.Event
+
+        def yielding_event():
+            e = plain_event()
+            if sched.in_logical_thread():
+                sched.yield_point("Event()")
+            return e
+
+        em.Event = yielding_event
     log = out.log
     problems = out.problems
     users = scn["users"]
@@ -614,6 +626,252 @@ def process_level(ctx, res, rounds):
 
 
 # ---------------------------------------------------------------------------------------
+# the real exec models (the scheduler runs replace Event / Lock / start by their own)
+# ---------------------------------------------------------------------------------------
+def _timed(fn, limit=3.0):
+    import threading
+
+    box = {}
+
+    def runner():
+        t0 = time.monotonic()
+        try:
+            box["val"] = fn()
+        except BaseException as e:  # noqa: BLE001
+            box["exc"] = e
+        box["dt"] = time.monotonic() - t0
+
+    th = threading.Thread(target=runner, daemon=True)
+    th.start()
+    th.join(limit)
+    if th.is_alive():
+        return "stuck", None, limit
+    if "exc" in box:
+        return "raise", box["exc"], box["dt"]
+    return "ok", box["val"], box["dt"]
+
+
+def native_execmodel_probe(ctx, res):
+    """WorkerPool / Reply on the repository's own ThreadExecModel and MainThreadOnlyExecModel with real threads: the time-out
+    contract of every waiting call including timeout=0 ("a timed-out get/waitfinish raises OSError", waitall/terminate
+    "return true only when no accepted task is unfinished"), and a thread that cannot be started (an accepted call is executed;
+    a refused one leaves the pool as it was)."""
+    import threading
+    import _thread
+
+    gb = ctx.execnet.gateway_base
+
+    def bad(case, what, finding=None):
+        res.violations.append({"case": dict(case, native=True), "what": what, "finding": finding})
+
+    for backend in ("thread", "main_thread_only"):
+        em = gb.get_execmodel(backend)
+        ev = em.Event()
+        for to in (0, 0.0, 0.05):
+            case = {"backend": backend, "op": "Event.wait", "timeout": to}
+            res.count(("native", backend, "event", repr(to)))
+            kind, val, dt = _timed(lambda: ev.wait(timeout=to))
+            if kind != "ok" or val or dt > to + 1.0:
+                bad(case, "Event().wait(timeout=%r) of an unset event: %s %r after %.2f s (must return false at once)" % (to, kind, val, dt))
+        ev.set()
+        kind, val, dt = _timed(lambda: ev.wait())
+        if kind != "ok" or not val:
+            bad({"backend": backend, "op": "Event.wait", "timeout": None}, "wait() of a set event: %s %r" % (kind, val))
+        for hasprimary in (False, True):
+            tag = {"backend": backend, "primary": hasprimary}
+            pool = gb.WorkerPool(em, hasprimary=hasprimary)
+            prim = None
+            if hasprimary:
+                prim = threading.Thread(target=pool.integrate_as_primary_thread, daemon=True)
+                prim.start()
+            go = threading.Event()
+            ran = []
+
+            def task():
+                go.wait(30)
+                ran.append(1)
+                return 42
+
+            reply = pool.spawn(task)
+            waits = [("Reply.get", lambda to: reply.get(timeout=to), OSError),
+                     ("Reply.waitfinish", lambda to: reply.waitfinish(timeout=to), OSError),
+                     ("WorkerPool.waitall", lambda to: pool.waitall(timeout=to), False)]
+            for name, fn, want in waits:
+                for to in (0, 0.0, 0.05):
+                    case = dict(tag, op=name, timeout=to)
+                    res.count(("native", backend, hasprimary, name, repr(to)), nontrivial=True)
+                    res.stat("native_timeout_calls")
+                    kind, val, dt = _timed(lambda: fn(to), 2.5)
+                    if kind == "stuck" or dt > to + 1.0:
+                        bad(case, "%s(timeout=%r) with the task unfinished: %s after %.2f s (must time out at once)" % (name, to, kind, dt))
+                    elif want is OSError and not (kind == "raise" and isinstance(val, OSError)):
+                        bad(case, "%s(timeout=%r) with the task unfinished: %s %r, expected OSError" % (name, to, kind, val))
+                    elif want is False and not (kind == "ok" and not val):
+                        bad(case, "%s(timeout=%r) with the task unfinished: %s %r, expected a false result" % (name, to, kind, val))
+            if ran:
+                bad(tag, "a timed-out wait cancelled or ran the task early: ran=%r" % ran)
+            go.set()
+            kind, val, dt = _timed(lambda: reply.get(timeout=5.0), 8.0)
+            if kind != "ok" or val != 42 or dt > 2.0 or ran != [1]:
+                bad(dict(tag, op="Reply.get", timeout=5.0), "after the task finished: get %s %r after %.2f s, ran=%r (expected 42 at once, once)" % (kind, val, dt, ran))
+            kind, val, dt = _timed(lambda: pool.waitall(timeout=5.0), 8.0)
+            if kind != "ok" or not val or dt > 2.0:
+                bad(dict(tag, op="WorkerPool.waitall", timeout=5.0), "with every task finished: waitall %s %r after %.2f s" % (kind, val, dt))
+            # terminate(timeout=0) with an unfinished task
+            go2 = threading.Event()
+            reply2 = pool.spawn(lambda: go2.wait(30) and 7)
+            res.count(("native", backend, hasprimary, "terminate0"), nontrivial=True)
+            kind, val, dt = _timed(lambda: pool.terminate(timeout=0), 2.5)
+            if kind != "ok" or val or dt > 1.0:
+                bad(dict(tag, op="WorkerPool.terminate", timeout=0), "terminate(timeout=0) with a task unfinished: %s %r after %.2f s" % (kind, val, dt))
+            go2.set()
+            kind, val, dt = _timed(lambda: (reply2.get(timeout=5.0), pool.waitall(timeout=5.0)), 12.0)
+            if kind != "ok" or val != (7, True):
+                bad(dict(tag, op="after terminate"), "task accepted before terminate: %s %r (expected its value and waitall true)" % (kind, val))
+            try:
+                pool.spawn(lambda: None)
+                bad(dict(tag, op="spawn after shutdown"), "spawn after terminate was accepted")
+            except ValueError:
+                pass
+            if prim is not None:
+                prim.join(3.0)
+                if prim.is_alive():
+                    bad(dict(tag, op="integrate_as_primary_thread"), "the primary thread did not leave integrate_as_primary_thread after shutdown")
+        # a thread that cannot be started
+        case = {"backend": backend, "op": "spawn with failing thread start"}
+        res.count(("native", backend, "start-fails"), nontrivial=True)
+        pool = gb.WorkerPool(em)
+        ran = []
+        real_start = _thread.start_new_thread
+
+        def failing(*a, **kw):
+            raise RuntimeError("can't start new thread")
+
+        _thread.start_new_thread = failing
+        try:
+            try:
+                reply = pool.spawn(lambda: ran.append(1) or 5)
+                accepted = True
+            except RuntimeError:
+                accepted = False
+        finally:
+            _thread.start_new_thread = real_start
+        if accepted:
+            kind, val, dt = _timed(lambda: reply.get(timeout=2.0), 4.0)
+            if kind != "ok" or val != 5 or ran != [1]:
+                bad(case, "spawn() returned a Reply although no thread could be started and the call was never executed: get %s %r, ran=%r" % (kind, val, ran))
+        else:
+            res.stat("native_spawn_refused_when_thread_start_fails")
+            kind, val, dt = _timed(lambda: pool.waitall(timeout=1.0), 3.0)
+            if pool.active_count() != 0 or kind != "ok" or not val:
+                bad(case, "spawn() raised RuntimeError (call not accepted) but the pool counts it: active_count=%d, waitall(1.0) %s %r "
+                          "— waitall/terminate can never become true" % (pool.active_count(), kind, val), finding=None)
+            kind, val, dt = _timed(lambda: pool.spawn(lambda: 9).get(timeout=2.0), 4.0)
+            if kind != "ok" or val != 9:
+                bad(case, "the pool is unusable after a refused spawn: %s %r" % (kind, val))
+            pool.terminate(timeout=1.0)
+
+
+def start_failure_correspondence(ctx, res, nprog):
+    """random histories of spawns whose thread starts / cannot be started, finishing calls and shutdown on the real
+    WorkerPool (thread model, real threads) against `spf.run code` (Model/SpawnFail.lean)"""
+    import threading
+    import _thread
+
+    gb = ctx.execnet.gateway_base
+    em = gb.get_execmodel("thread")
+    real_start = _thread.start_new_thread
+
+    def failing(*a, **kw):
+        raise RuntimeError("can't start new thread")
+
+    progs = []
+    for k in range(nprog):
+        rng = common.rng_for(ctx.seed, "C09:spf:%d" % k)
+        pool = gb.WorkerPool(em)
+        gates, replies, ops, outs = {}, {}, [], []
+        nxt = 0
+        nfin = 0
+        for _ in range(rng.choice([3, 6, 10])):
+            c = rng.random()
+            if c < 0.3:
+                op = "s1"
+            elif c < 0.55:
+                op = "s0"
+            elif c < 0.9:
+                op = "f%d" % (rng.randrange(nxt + 1) if nxt else 0)
+            else:
+                op = "x"
+            ops.append(op)
+            if op in ("s1", "s0"):
+                gate = threading.Event()
+                if op == "s0":
+                    _thread.start_new_thread = failing
+                try:
+                    try:
+                        r = pool.spawn(gate.wait, 30)
+                        if pool._shuttingdown:
+                            outs.append("accepted-after-shutdown")
+                        else:
+                            outs.append("r%d" % nxt)
+                            gates[nxt], replies[nxt] = gate, r
+                            nxt += 1
+                    except ValueError:
+                        outs.append("shut")
+                    except RuntimeError:
+                        outs.append("starterr")
+                        nxt += 1
+                finally:
+                    _thread.start_new_thread = real_start
+            elif op == "x":
+                pool.trigger_shutdown()
+                outs.append("done")
+            else:
+                r = int(op[1:])
+                if r in gates:
+                    before = pool.active_count()
+                    gates.pop(r).set()
+                    try:
+                        replies[r].get(timeout=5.0)
+                    except OSError:
+                        pass
+                    t_end = time.monotonic() + 5.0
+                    while pool.active_count() >= before and time.monotonic() < t_end:
+                        time.sleep(0.001)
+                    nfin += 1
+                    outs.append("done")
+                else:
+                    outs.append("noten")
+        box = {}
+        th = threading.Thread(target=lambda: box.setdefault("w", pool.waitall(timeout=0.05)), daemon=True)
+        th.start()
+        th.join(3.0)
+        impl = "%s | running=%d accepted=%d finished=%d waitall=%s" % (
+            " ".join(outs), pool.active_count(), len(replies), nfin, str(bool(box.get("w"))).lower())
+        for g in gates.values():
+            g.set()
+        pool.terminate(timeout=2.0)
+        res.count(("spf",) + tuple(ops), nontrivial="s0" in ops)
+        res.stat("spawnfail_programs")
+        for o in outs:
+            res.stat("spawnfail_out_" + o.rstrip("0123456789"))
+        progs.append((ops, impl))
+    model = ctx.driver.ask(["spf.run code " + " ".join(ops) for ops, _ in progs])
+    for (ops, impl), m in zip(progs, model):
+        if impl == m:
+            res.traces += 1
+            continue
+        # does the property fail on this history?  (a refused spawn that is counted / waitall false with everything finished)
+        f = dict(kv.split("=") for kv in impl.split(" | ")[1].split())
+        if "accepted-after-shutdown" in impl or (f["accepted"] == f["finished"] and f["waitall"] != "true"):
+            res.violations.append({"case": {"spawnfail_ops": " ".join(ops), "native": True}, "finding": None,
+                                   "what": "history %s: %s — every accepted call has finished, yet waitall() is not true / the pool "
+                                           "counts a call it refused (model: %s)" % (" ".join(ops), impl, m)})
+        else:
+            res.mismatches.append({"op": "spf.run", "ops": " ".join(ops), "impl": impl, "model": m})
+
+
+# ---------------------------------------------------------------------------------------
 # entry points
 # ---------------------------------------------------------------------------------------
 RULE = ("real WorkerPool/Reply under the deterministic scheduler: frozen D9 corpus (scenario + choice list), generated scenarios "
@@ -653,6 +911,12 @@ def run(ctx):
     process_level(ctx, res, ctx.budget(3, 10, 6))
     if res.violations:
         return res
+    native_execmodel_probe(ctx, res)
+    if [v for v in res.violations if not v.get("finding")]:
+        return res
+    start_failure_correspondence(ctx, res, ctx.budget(60, 600, 200))
+    if res.violations:
+        return res
     # random schedules of generated scenarios
     nscen = ctx.budget(45, 0, 150)
     per = ctx.budget(50, 0, 120)
@@ -662,8 +926,11 @@ def run(ctx):
         res.sample(scn)
         for j in range(per):
             sseed = "%d:C09:%d:%d" % (ctx.seed, k, j)
-            out = execute(execnet, scn, rng=random.Random(sseed))
-            col.add(scn, out, _case(scn, out, rng_seed=sseed))
+            ey = j % 4 == 3
+            out = execute(execnet, scn, rng=random.Random(sseed), event_yield=ey)
+            col.add(scn, out, _case(scn, out, rng_seed=sseed, event_yield=ey))
+            if ey:
+                res.stat("schedules_with_event_allocation_as_scheduling_point")
         if len(res.violations) > 5:
             return res
     # corpus scenarios: random + small exhaustive DFS
@@ -762,11 +1029,16 @@ def replay(ctx, payload):
     if "process_level" in case:
         process_level(ctx, res, 3)
         return res
+    if "native" in case:
+        native_execmodel_probe(ctx, res)
+        start_failure_correspondence(ctx, res, 60)
+        return res
     scn = case["scenario"]
     col = Collector(res)
     if case.get("rng_seed") is not None:
         pre = case.get("preempt", 0)
-        out = execute(ctx.execnet, scn, rng=random.Random(case["rng_seed"]), preempt=pre, preempt_prob=case.get("preempt_prob", 0.0))
+        out = execute(ctx.execnet, scn, rng=random.Random(case["rng_seed"]), preempt=pre, preempt_prob=case.get("preempt_prob", 0.0),
+                      event_yield=bool(case.get("event_yield")))
     else:
         out = execute(ctx.execnet, scn, choices=list(case["choices"]), current_first=bool(case.get("current_first")))
     col.add(scn, out, case)
